@@ -43,7 +43,7 @@ ASSUMPTIONS = [
     'tz4: OperationGroup.sign() cannot produce a generic BLS signature today (subject of C07/C23); the harness attaches the curve-specific signature.',
     'The current Octez mempool dialect is `validated` (the repository\'s own block/header.py and RPC docs use it); the legacy `applied` dialects are sampled too.',
 ]
-EXPECTED_PROBES = ['interleaved_preparation', 'injection_with_pending', 'injection_after_failed_injection', 'ack_lost_then_reinjected', 'baked_inside_client_call',
+EXPECTED_PROBES = ['own_operation_arrived_during_client_call', 'interleaved_preparation', 'injection_with_pending', 'injection_after_failed_injection', 'ack_lost_then_reinjected', 'baked_inside_client_call',
                    'refill_before_inject', 'counter_crossed_varint_boundary', 'batch_injected']
 
 TEMPLATES = {
@@ -105,7 +105,7 @@ def gen(seed, tier):
         'baker': baker,
         'block_delay_s': rng.choice([1, 4, 8, 15]),
         'bake_jitter_ms': [rng.choice([0, 300, 2500]) for _ in range(3)],
-        'latency_ms': rng.choice([0, 0, 0, 50, 700, 3000]) if baker else rng.choice([0, 0, 20]),
+        'latency_ms': rng.choice([0, 0, 0, 50, 700, 3000]) if baker else rng.choice([0, 0, 20, 150]),
         'chain_name': rng.choice(['TEZOS_MAINNET', 'TEZOS_MAINNET', 'SANDBOXED_TEZOS']),
         'prebake': rng.choice([1, 2, 5]),
         'watch_only': rng.random() < 0.08,
@@ -130,13 +130,16 @@ def gen(seed, tier):
                 steps.append({'op': 'bake', 'n': rng.choice([1, 1, 2, 3])})
             elif c < 0.6:
                 steps.append({'op': 'sleep', 's': rng.choice([0.5, 3, 9, 40])})
-            elif c < 0.85:
+            elif c < (0.75 if cfg['latency_ms'] else 0.85):
                 steps.append({'op': 'noise', 'acct': rng.randint(0, 2), 'n': rng.choice([1, 2]),
                               'where': rng.choice(['validated', 'validated', 'refused', 'branch_delayed', 'unprocessed'])})
             elif c < 0.93:
                 # a pending manager operation of the account made by another wallet, of a kind pytezos cannot build itself
                 steps.append({'op': 'noise', 'own_foreign': True, 'n': rng.choice([1, 1, 2]),
                               'kind': rng.choice(['increase_paid_storage', 'update_consensus_key', 'set_deposits_limit', 'smart_rollup_originate'])})
+                if cfg['latency_ms'] and rng.random() < 0.6:
+                    # ... and it reaches the node a little later, possibly while the next client call is in flight
+                    steps[-1]['after_ms'] = rng.randint(0, 14) * cfg['latency_ms'] + 1  # lands in the latency window of one of the next requests
             else:
                 # an operation of the account itself that is listed by the node but will never take a counter
                 steps.append({'op': 'noise', 'own_stale': True, 'n': rng.choice([1, 2]), 'where': rng.choice(['outdated', 'outdated', 'refused', 'branch_refused', 'branch_delayed'])})
@@ -209,6 +212,11 @@ def gen(seed, tier):
                     faults[where] = d
             if faults:
                 st['faults'] = faults
+            if op in ('fill', 'autofill', 'inject', 'send') and rng.random() < 0.06:
+                # schedule point inside the call: an operation of the account made through another wallet reaches the node between two
+                # requests of this very call (before the mempool read, before the simulation, before the injection, ...)
+                st['arrival'] = {'before': rng.choice(['inj', 'inj', 'pend', 'run', 'ctr', str(rng.randint(1, 8))]), 'n': rng.choice([1, 1, 2]),
+                                 'kind': rng.choice(['increase_paid_storage', 'set_deposits_limit'])}
             steps.append(st)
         env_steps()
     return {'prop': ID, 'cfg': cfg, 'steps': steps}
@@ -220,6 +228,13 @@ class C25World(cs.World):
 
     def _fault_for(self, req):
         rel = req['i'] - self.step_first
+        arr = (self.cur_step or {}).get('arrival')
+        if arr and not arr.get('_done') and (self.MATCH[arr['before']] in req['path'] if arr['before'] in self.MATCH else str(rel) == arr['before']):
+            # another wallet's operation of this account reaches the node just before this request of the call is served
+            arr['_done'] = True
+            self.node.add_foreign_kind_pending(self.pkh, kind=arr.get('kind', 'increase_paid_storage'), n=arr.get('n', 1))
+            self.bump(self.info, 'own_pending_operation_of_foreign_kind')
+            self.bump(self.probes, 'own_operation_arrived_during_client_call')
         d = self.step_faults.get(str(rel))
         if d is None:
             for key, frag in self.MATCH.items():
@@ -251,11 +266,23 @@ class C25World(cs.World):
                 g0['n_fill'], g0['p_fill'] = n_now, p_now
                 g0['acc_at_fill'] = acc_now
                 g0['_send_live'] = True
+            # the reference point for "nothing of the account was accepted in between" is the moment the library last looked at the
+            # mempool in this call (an operation made through another wallet may reach the node while the call is in flight)
+            seen = {'acc': None}
+
+            def on_pending_read():
+                seen['acc'] = self.sim.stats.get('injections_accepted', 0)
+                gg = self.groups.get(st.get('g'))
+                if gg is not None and st['op'] == 'send':
+                    gg['acc_at_fill'] = seen['acc']
+
+            node.on_pending_read = on_pending_read if st['op'] in ('autofill', 'send') else None
             ok = False
             try:
                 orig(st)
                 ok = True
             finally:
+                node.on_pending_read = None
                 if st['op'] in ('fill', 'autofill', 'send', 'inject', 'sign') and node.head['level'] > before:
                     self.bump(self.probes, 'baked_inside_client_call')
                 g = self.groups.get(st.get('g'))
@@ -263,7 +290,7 @@ class C25World(cs.World):
                     g['tainted'] = bool(node.race_tainted.get(self.pkh))
                     if st['op'] == 'autofill' or reassigns:
                         # a fill of an already filled group leaves its counters alone: it does not move the reference point
-                        g['acc_at_fill'] = acc_now
+                        g['acc_at_fill'] = seen['acc'] if (st['op'] == 'autofill' and seen['acc'] is not None) else acc_now
                     if reassigns:
                         # the facts at the moment the node served the counter (a block may land while the call is in flight)
                         g['n_fill'], g['p_fill'] = node.last_counter_served.get(self.pkh, (n_now, p_now))
